@@ -375,4 +375,49 @@ def r16_inplace(ctx):
         ctx.functions.add(q)
 
 
-RULES = [('R16.10', r16_inplace), ('R16.9', r16_attribute_edit), ('R16.8', r16_refused_edit), ('R16.7', r16_merge), ('R16.6', r16_6), ('R16.1', r16_1), ('R16.2', r16_2), ('R16.3', r16_3), ('R16.4', r16_4), ('R16.5', r16_5)]
+def r16_saved_values(ctx):
+    """save() after an edit writes the edited values: comparing with a freshly built file shows that nothing stale is written,
+    not that what is written is the value.  Here a tempo, a sequence number and a channel prefix are assigned to messages of a
+    file that was already saved once, and the bytes of the second save are looked at: FF 51 03 07 A1 20 for tempo 500000."""
+    ai = smf.make_interp(ctx)
+    cls = ctx.p.cls(MF, 'MidiFile')
+    o, save = ctx.p.lookup_method(cls, 'save')
+    if save is None:
+        raise AnalysisError('MidiFile.save not found')
+    ctx.fn(save)
+    w = ctx.where(save)
+    from ..fold import ClassRef
+    n = 0
+    for mtype, attr, first, value, payload in (('set_tempo', 'tempo', 400000, 500000, [0xff, 0x51, 3, 0x07, 0xa1, 0x20]),
+                                               ('set_tempo', 'tempo', 500000, 0x123456, [0xff, 0x51, 3, 0x12, 0x34, 0x56]),
+                                               ('sequence_number', 'number', 1, 0x1234, [0xff, 0x00, 2, 0x12, 0x34]),
+                                               ('channel_prefix', 'channel', 0, 9, [0xff, 0x20, 1, 9])):
+        n += 1
+        holder = {}
+
+        def thunk():
+            m = ai.apply(ClassRef(ctx.p.cls(wire.META_MOD, 'MetaMessage')), [mtype], {attr: first, 'time': 0}, None)
+            tr = AList([m], 'MidiTrack')
+            tr.cls = ctx.p.cls('mido.midifiles.tracks', 'MidiTrack')
+            mf = ai.apply(ClassRef(cls), [], {'type': 1, 'ticks_per_beat': 480, 'tracks': AList([tr], 'list')}, None)
+            ai.call_function(save, [mf], {'file': wire.AFile(name='first')})
+            ai.ex_block(ast.parse(f'm.{attr} = v').body, {'m': m, 'v': value}, cls.module)
+            out = wire.AFile(name='second')
+            holder['out'] = out
+            ai.call_function(save, [mf], {'file': out})
+            return out
+        outs = ai.explore(thunk)
+        flat = []
+        for x in (holder['out'].written if 'out' in holder else []):
+            flat.append(x.value if isinstance(x, wire.VLQ) and isinstance(x.value, int) else x)
+        found = any(all(isinstance(flat[i + k], int) and flat[i + k] == payload[k] for k in range(len(payload))) for i in range(len(flat) - len(payload) + 1))
+        ok = len(outs) == 1 and outs[0].kind == 'return' and found
+        ctx.require(ok, 'R16.11', f'save; msg.{attr} = {value}; save', w,
+                    f'the second save writes {[x for x in flat if not isinstance(x, wire.Field)]}; it must contain {" ".join(f"{b_:02X}" for b_ in payload)}',
+                    construct=f'{save.qname}::saved-value({mtype})')
+    ctx.floor('R16.11', n, 4)
+    for q in ai.inlined:
+        ctx.functions.add(q)
+
+
+RULES = [('R16.11', r16_saved_values), ('R16.10', r16_inplace), ('R16.9', r16_attribute_edit), ('R16.8', r16_refused_edit), ('R16.7', r16_merge), ('R16.6', r16_6), ('R16.1', r16_1), ('R16.2', r16_2), ('R16.3', r16_3), ('R16.4', r16_4), ('R16.5', r16_5)]
